@@ -770,6 +770,18 @@ func (d *DataChannel) collectStats(collector *statsReportCollector) {
 	collector.Collect(stats.ID, stats)
 }
 
+// setReadyState only ever moves the state forward along connecting -> open ->
+// closing -> closed (possibly skipping states). The callers race with each
+// other (Close, handleOpen, the read loop, PeerConnection.Close), so a late
+// store must not undo a state that was reached in the meantime.
 func (d *DataChannel) setReadyState(r DataChannelState) {
-	d.readyState.Store(r)
+	for {
+		current := d.readyState.Load()
+		if state, ok := current.(DataChannelState); ok && state >= r {
+			return
+		}
+		if d.readyState.CompareAndSwap(current, r) {
+			return
+		}
+	}
 }
